@@ -60,6 +60,10 @@ def parseOp? (k : Nat) (toks : List String) : Option (List Op) :=
 
 def invalid : String := "M INVALID | S any"
 
+/-- The capacities `N` for which the harness instantiates `Bitset<N>` (its `NS`): small scope, the 64-word boundary family, and
+    (wave 4) the 256-word / 512-word boundary family 256, 257, 512, 513. -/
+def capacities : List Nat := [1, 2, 3, 10, 63, 64, 65, 128, 129, 256, 257, 512, 513]
+
 def handle (line : String) : String :=
   match splitOps line with
   | [] => badLine line
@@ -67,15 +71,18 @@ def handle (line : String) : String :=
     match parseNats? (tokens hdr) with
     | some [n, k] =>
       -- the harness instantiates the const generic for exactly these capacities
-      if ¬ (n = 1 ∨ n = 2 ∨ n = 3 ∨ n = 10 ∨ n = 63 ∨ n = 64 ∨ n = 65 ∨ n = 128 ∨ n = 129) ∨ k = 0 ∨ k > 16 then invalid else
+      if ¬ (capacities.contains n) ∨ k = 0 ∨ k > 16 then invalid else
       match (opStrs.filter (· ≠ "")).mapM (fun s => parseOp? k (tokens s)) with
       | none => invalid
       | some opss =>
         let ops := opss.flatten
-        let m := match runCase n k ops with
+        -- `runCaseFast` / `specRunCaseFast` are `runCase` / `specRunCase` (theorem `Rlib.C12.fast_path_eq`; `history_observed_fast`): the
+        -- same functions with the words of a register converted to an array once per observation (a 32832-bit register otherwise
+        -- costs ~50 million list steps to observe)
+        let m := match runCaseFast n k ops with
           | .ok o => showObs n o ++ " o=ok"
           | .error e => e.toString
-        let s := if ops.all (Op.inDomain n k) then showObs n (specRunCase n k ops) ++ " o=ok" else "any"
+        let s := if ops.all (Op.inDomain n k) then showObs n (specRunCaseFast n k ops) ++ " o=ok" else "any"
         s!"M {m} | S {s}"     -- view = raw result: the property fixes every observed value
     | _ => badLine line
 
